@@ -54,6 +54,9 @@ type meterSim struct {
 	frames    int
 	staleWake int
 	t0        time.Time
+	slow      []int // per intermediate frame: > 0 = the frame is held "in flight" until the scheduler lets it land
+	slowi     int
+	inflight  []chan bool
 }
 
 func (m *meterSim) logEv(actor, ev string, n int) {
@@ -69,8 +72,31 @@ func (m *meterSim) fail(class, detail string) {
 
 var frameRe = regexp.MustCompile(`^phase(\d+): (-?\d+)   (.?)                    ([\r\n])$`)
 
-// Write is the meter's io.Writer: one call per frame.
+// Write is the meter's io.Writer: one call per frame. An intermediate
+// frame ("\r") may, if the plan says so, take fake time to be written (a slow
+// terminal): the scheduler then gets control while the frame is "in flight".
+// With the meter's lock held across the write nothing can overtake it (a worker
+// step that needs the lock makes the scheduler land the frame first); a frame
+// written outside the lock can be overtaken by the final line.
 func (m *meterSim) Write(b []byte) (int, error) {
+	if len(b) > 0 && b[len(b)-1] == '\r' {
+		m.mu.Lock()
+		hold := false
+		if len(m.slow) > 0 && !m.ending {
+			hold = m.slow[m.slowi%len(m.slow)] > 0
+			m.slowi++
+		}
+		var ch chan bool
+		if hold {
+			ch = make(chan bool)
+			m.inflight = append(m.inflight, ch)
+			m.logEv("meter", "frame-in-flight", len(m.inflight))
+		}
+		m.mu.Unlock()
+		if hold {
+			<-ch // the scheduler decides when the frame lands
+		}
+	}
 	m.mu.Lock()
 	defer m.mu.Unlock()
 	m.logEv("meter", "frame", len(b))
@@ -94,12 +120,14 @@ func (m *meterSim) Write(b []byte) (int, error) {
 		m.fail("C18/count-decreased", fmt.Sprintf("phase %d: %d shown after %d", ph, cnt, last))
 	}
 	m.lastShown[ph] = cnt
-	if cnt != m.count {
-		cls := "C18/frame-count-wrong"
-		if final {
-			cls = "C18/final-count-wrong"
-		}
-		m.fail(cls, fmt.Sprintf("phase %d: frame shows %d, %d items had been counted when it was written", ph, cnt, m.count))
+	// an intermediate frame may have been snapshotted a little earlier than it
+	// lands (Inc() does not take the lock): it must not exceed what has been
+	// counted and must not go backwards; the final line must be exact
+	if final && cnt != m.count {
+		m.fail("C18/final-count-wrong", fmt.Sprintf("phase %d: final line shows %d, %d items were counted", ph, cnt, m.count))
+	}
+	if !final && cnt > m.count {
+		m.fail("C18/frame-count-wrong", fmt.Sprintf("phase %d: frame shows %d, only %d items had been counted when it was written", ph, cnt, m.count))
 	}
 	if final {
 		m.finalSeen[ph] = true
@@ -158,6 +186,13 @@ func RunMeterSims(t *testing.T, api MeterAPI, scripts []MeterScript, scheds [][]
 
 func runMeterSimInBubble(api MeterAPI, script MeterScript, sched []int) MeterRunResult {
 	m := &meterSim{phase: -1, finalSeen: map[int]bool{}, lastShown: map[int]int64{}}
+	// every third schedule holds some intermediate frames in flight (derived
+	// from the schedule itself, so the scenario format is unchanged)
+	if len(sched) > 0 && sched[0]%3 == 0 {
+		for _, k := range sched {
+			m.slow = append(m.slow, []int{0, 1, 1, 0, 1}[k%5])
+		}
+	}
 	if !api.SetYield(m.yield) {
 		return MeterRunResult{V: &Violation{"C18/hook-missing", "the binary was built without the verif tag"}}
 	}
@@ -225,6 +260,65 @@ func runMeterSimInBubble(api MeterAPI, script MeterScript, sched []int) MeterRun
 				stepDone <- struct{}{}
 			}
 		}()
+		// land lets n in-flight frames (all if n < 0) complete their write
+		land := func(n int) {
+			for n != 0 {
+				m.mu.Lock()
+				if len(m.inflight) == 0 {
+					m.mu.Unlock()
+					return
+				}
+				ch := m.inflight[0]
+				m.inflight = m.inflight[1:]
+				m.logEv("sched", "land", len(m.inflight))
+				m.mu.Unlock()
+				ch <- true
+				synctest.Wait()
+				n--
+			}
+		}
+		// step runs one worker operation. If a frame is in flight and the
+		// meter holds its lock across the write, a worker operation that needs
+		// the lock cannot finish before the frame has landed: after yielding
+		// twice (one P: the worker has then either finished or blocked) the
+		// scheduler lands the frames in flight and waits for the worker.
+		step := func(op MeterOp) {
+			baton <- op
+			if op.Op != "sleep" {
+				for i := 0; i < 3; i++ {
+					select {
+					case <-stepDone:
+						return
+					default:
+					}
+					runtime.Gosched()
+				}
+				select {
+				case <-stepDone:
+					return
+				default:
+				}
+				m.mu.Lock()
+				n := len(m.inflight)
+				m.mu.Unlock()
+				if n > 0 {
+					// cannot use land(): synctest.Wait would wait for the worker, which is waiting for the lock
+					for {
+						m.mu.Lock()
+						if len(m.inflight) == 0 {
+							m.mu.Unlock()
+							break
+						}
+						ch := m.inflight[0]
+						m.inflight = m.inflight[1:]
+						m.logEv("sched", "land-for-blocked-worker", len(m.inflight))
+						m.mu.Unlock()
+						ch <- true
+					}
+				}
+			}
+			<-stepDone
+		}
 		ops := script.Ops
 		oi := 0
 		steps := 0
@@ -233,12 +327,24 @@ func runMeterSimInBubble(api MeterAPI, script MeterScript, sched []int) MeterRun
 			synctest.Wait()
 			m.mu.Lock()
 			np := len(m.parked)
+			nf := len(m.inflight)
 			bad := m.violation != nil
 			m.mu.Unlock()
 			if bad {
 				break
 			}
+			landAlt := -1
+			if nf > 0 {
+				// While a frame is in flight the meter's lock may be held: a
+				// released ticker would block on it (not durably), which
+				// synctest cannot wait for. Tickers stay parked until it lands.
+				np = 0
+			}
 			nalt := np
+			if nf > 0 {
+				landAlt = nalt
+				nalt++
+			}
 			workerAlt := -1
 			if oi < len(ops) {
 				workerAlt = nalt
@@ -246,11 +352,18 @@ func runMeterSimInBubble(api MeterAPI, script MeterScript, sched []int) MeterRun
 			}
 			clockAlt := nalt
 			nalt++
-			if oi >= len(ops) && np == 0 {
-				break
+			if oi >= len(ops) && np == 0 && nf == 0 {
+				m.mu.Lock()
+				rest := len(m.parked)
+				m.mu.Unlock()
+				if rest == 0 {
+					break
+				}
 			}
 			k := choose(nalt)
 			switch {
+			case k == landAlt:
+				land(1)
 			case k < np:
 				m.mu.Lock()
 				p := m.parked[k]
@@ -259,9 +372,8 @@ func runMeterSimInBubble(api MeterAPI, script MeterScript, sched []int) MeterRun
 				m.mu.Unlock()
 				p.ch <- true
 			case k == workerAlt:
-				baton <- ops[oi]
+				step(ops[oi])
 				oi++
-				<-stepDone
 			case k == clockAlt:
 				d := []time.Duration{time.Millisecond, period / 2, period, period + time.Millisecond}[choose(4)]
 				m.mu.Lock()
@@ -276,13 +388,14 @@ func runMeterSimInBubble(api MeterAPI, script MeterScript, sched []int) MeterRun
 		bad := m.violation != nil
 		m.mu.Unlock()
 		for ; oi < len(ops) && !bad; oi++ {
-			baton <- ops[oi]
-			<-stepDone
+			step(ops[oi])
 		}
+		land(-1)
 		close(baton)
 		// drain: stale tickers may wake once more; none may print
 		for i := 0; i < 3; i++ {
 			synctest.Wait()
+			land(-1)
 			m.mu.Lock()
 			ps := m.parked
 			m.parked = nil
@@ -302,6 +415,7 @@ func runMeterSimInBubble(api MeterAPI, script MeterScript, sched []int) MeterRun
 		for _, p := range ps {
 			p.ch <- false
 		}
+		land(-1)
 		// a ticker goroutine that is still waiting for ticks at this point
 		// would keep the bubble alive for ever; the `ending` flag makes it
 		// exit at its next tick
